@@ -476,6 +476,21 @@ impl SessionManager {
         self.check_invariants();
     }
 
+    /// Verification hook: total number of per-(cluster, source-IP) slots held.
+    #[cfg(sozu_verif)]
+    pub fn verif_per_ip_slots(&self) -> usize {
+        self.connections_per_cluster_ip
+            .values()
+            .map(|by_ip| by_ip.values().sum::<usize>())
+            .sum()
+    }
+
+    /// Verification hook: number of tokens holding at least one slot.
+    #[cfg(sozu_verif)]
+    pub fn verif_per_ip_tokens(&self) -> usize {
+        self.cluster_ip_tracks.len()
+    }
+
     /// The slab is considered at capacity if it contains more sessions than twice max_connections
     pub fn at_capacity(&self) -> bool {
         self.slab.len() >= self.accept_slab_threshold()
@@ -1035,6 +1050,9 @@ impl Server {
 
             let timeout = self.reset_loop_time_and_get_timeout();
 
+            #[cfg(sozu_verif)]
+            self.verif_loop_idle();
+
             match self.poll.poll(&mut events, timeout) {
                 Ok(_) => self.current_poll_errors = 0,
                 Err(error) => {
@@ -1232,6 +1250,48 @@ impl Server {
                 return;
             }
         }
+    }
+
+    /// Verification hook `loop_idle`: snapshot of the admission / accounting
+    /// state right before the event loop goes back to sleep.
+    #[cfg(sozu_verif)]
+    fn verif_loop_idle(&self) {
+        if !crate::verif::enabled() {
+            return;
+        }
+        let (backend_connections, backend_requests) = {
+            let map = self.backends.borrow();
+            let mut connections = 0i64;
+            let mut requests = 0i64;
+            for list in map.backends.values() {
+                for backend in &list.backends {
+                    let backend = backend.borrow();
+                    connections += backend.active_connections as i64;
+                    requests += backend.active_requests as i64;
+                }
+            }
+            (connections, requests)
+        };
+        let sessions = self.sessions.borrow();
+        crate::verif::emit(
+            "loop_idle",
+            &[
+                ("slab", sessions.slab.len() as i64),
+                ("nb", sessions.nb_connections as i64),
+                ("max", sessions.max_connections as i64),
+                ("can_accept", sessions.can_accept as i64),
+                ("queue", self.accept_queue.len() as i64),
+                ("accept_ready", self.accept_ready.len() as i64),
+                ("pool_used", self.pool.borrow().inner.used() as i64),
+                ("base", self.base_sessions_count as i64),
+                ("per_ip_limit", sessions.max_connections_per_ip as i64),
+                ("per_ip_slots", sessions.verif_per_ip_slots() as i64),
+                ("per_ip_tokens", sessions.verif_per_ip_tokens() as i64),
+                ("backend_connections", backend_connections),
+                ("backend_requests", backend_requests),
+                ("shutting_down", self.shutting_down.is_some() as i64),
+            ],
+        );
     }
 
     fn check_for_poll_errors(&mut self) {
